@@ -126,7 +126,10 @@ impl Monitor for C01 {
 		// receive the identical file, and a sink that fails must make the write fail
 		if bytes.len() < 300_000 {
 			let k = [1usize, 3, 7, 100, 4096][idx % 5];
-			let (r, sink) = common::slp_write_sink(&game, crate::iofault::Sink::short(k));
+			let mut sk = crate::iofault::Sink::short(k);
+			// and, for every other case, every 5th write call is answered by ErrorKind::Interrupted
+			sk.interrupt_every = if idx % 2 == 0 { 5 } else { 0 };
+			let (r, sink) = common::slp_write_sink(&game, sk);
 			out.evals += 1;
 			match r {
 				Ok(()) if sink.buf == bytes => out.count("short_write_sink_identical", 1),
